@@ -56,7 +56,7 @@ def run_pair(case, ctx=None):
 
 def run_shard(ctx):
     quick = ctx.tier == 'quick'
-    ctx.set_budget(70 if quick else 2400)
+    ctx.set_budget(70 if quick else 1100)
 
     def run_one(case):
         _, fp, _, labels = run_pair(case, ctx)
